@@ -415,6 +415,7 @@ class dir_archive(archive):
         return
     __setitem__.__doc__ = dict.__setitem__.__doc__
     def clear(self):
+        for _dir in self._lsdir(): self._rmpath(_dir) # entry by entry
         rmtree(self.__state__['id'], self=False, ignore_errors=True)
         return
     clear.__doc__ = dict.clear.__doc__
@@ -531,7 +532,16 @@ class dir_archive(archive):
 
     def _rmdir(self, key):
         "remove results subdirectory corresponding to given key"
-        rmtree(self._getdir(key), self=True, ignore_errors=True)
+        self._rmpath(self._getdir(key))
+        return
+    def _rmpath(self, _dir):
+        "remove a results subdirectory, given its path"
+        # first move it out of the way in one step, so that an interrupted
+        # (or concurrent) removal never leaves a half-deleted entry behind
+        _tmp = self._getdir(TEMP+hash(random(), 'md5'))
+        try: os.rename(_dir, _tmp)
+        except OSError: _tmp = _dir
+        rmtree(_tmp, self=True, ignore_errors=True)
         return
     def _lsdir(self):
         "get a list of subdirectories in the root directory"
